@@ -160,6 +160,29 @@ def handleMetadata (s : Meta) (req : Option (List ReqTopic)) (host : String) (po
 def handleMetadataOld (s : Meta) (req : Option (List ReqTopic)) (host : String) (port : Int) : Meta :=
   buildResponseOld (loadMetadata s req) host port
 
+/-! ### concurrent clients
+
+`handleMetadata` reads `p.store`, `p.advertisedHost`, `p.advertisedPort` and nothing else of the
+proxy: no cache, no in-flight table is shared between two Metadata requests.  Serving a batch of
+overlapping requests is therefore the pointwise map. -/
+
+def serveConcurrent (s : Meta) (reqs : List (Option (List ReqTopic))) (host : String) (port : Int) : List Meta :=
+  reqs.map fun r => handleMetadata s r host port
+
+/-- A (hypothetical) proxy that coalesces overlapping lookups: a request whose `key` equals the
+key of an EARLIER request of the batch is answered from that request's load.  With an injective
+key this is `serveConcurrent`; the seeded change C28-1 used `namesKey`. -/
+def serveCoalesced {κ : Type} [DecidableEq κ] (key : Option (List ReqTopic) → κ) (s : Meta)
+    (reqs : List (Option (List ReqTopic))) (host : String) (port : Int) : List Meta :=
+  reqs.map fun r =>
+    match reqs.find? (fun r' => key r' = key r) with
+    | some r' => buildResponse (loadMetadata s r') host port
+    | none => handleMetadata s r host port
+
+/-- "metadata/*" for all-topics, else the requested NAMES joined (ids ignored). -/
+def namesKey (r : Option (List ReqTopic)) : Option (List String) :=
+  r.map fun ts => ts.filterMap (·.name)
+
 /-! ### FindCoordinator and the not-ready replies -/
 
 structure Coord where
